@@ -212,6 +212,25 @@ def check(case, ctx):
         out = call(lambda: free[m](R.copy(), **kw))
         if ctx.returned(out, route=r):
             judge(ctx, r, m, out.value, R, theta)
+    # one DCM object converted, updated in place to another rotation (R[:] = R2, the way a loop re-uses its matrix), converted again with the same
+    # method and options: the second answer is the quaternion of the matrix the object holds now
+    S_ = case.p["others"][0] if len(case.p["others"]) else rq.rodrigues(np.array([0.6, 0.0, 0.8]), 1.1)
+    R2_ = S_ @ R
+    th2 = rq.rot_angle(R2_)
+    for m, kw in METHODS:
+        if m not in ROBUST and (theta > np.pi - 1e-6 or th2 > np.pi - 1e-6):
+            continue
+        r = "DCM.to_quaternion/" + mname(m, kw)
+
+        def twice_():
+            D_ = DCM(R.copy())
+            first = np.asarray(D_.to_quaternion(m, **kw), float)
+            D_[:] = R2_
+            return first, np.asarray(D_.to_quaternion(m, **kw), float), np.asarray(D_.to_q(), float)
+        o2_ = call(twice_)
+        if ctx.returned(o2_, clause="no-exception[object updated in place between two conversions]", route=r):
+            judge(ctx, r, m, o2_.value[1], R2_, th2)
+            judge(ctx, "DCM.to_q/default", "shepperd", o2_.value[2], R2_, th2)
     out = call(lambda: DCM(R.copy()).to_q())
     if ctx.returned(out, route="DCM.to_q/default"):
         judge(ctx, "DCM.to_q/default", "shepperd", out.value, R, theta)
